@@ -403,6 +403,8 @@ def build(func, mod=None, lenient=False, bind=None, unfold=0):
                     edge[(b, t)] = g
                     cond[t] = mk_or(cond.get(t, FALSE), g)
             elif op == "ret":
+                if ins.ty == "aggregate":
+                    raise AnalysisBroken("%s: returns an aggregate: %s" % (func.name, ins.raw))
                 if ins.ty != "void":
                     rets.append((g, val(ins.args[0])))
                 else:
